@@ -2,14 +2,17 @@ from common import Ctx, RULES
 from legs import run_classified_leg
 
 PID = "C19"
-COQ_FILES = ["Model/Base.v", "Model/Scope.v", "Proofs/ScopeProofs.v", "Gen/Scope.v", "Ties/ScopeTie.v", "Properties/C19.v"]
+# variables that live in registers are read through the DWARF register numbering: its table (regenerated from register.rs) and the proofs that it is
+# the psABI's belong to this property as well
+COQ_FILES = ["Model/Base.v", "Model/Scope.v", "Proofs/ScopeProofs.v", "Gen/Scope.v", "Ties/ScopeTie.v", "Gen/Regs.v", "Spec/X86Dwarf.v", "Model/Regs.v",
+             "Proofs/RegsProofs.v", "Properties/C19.v"]
 RULES[PID] = ("e2e leg: seeded generated Rust programs (gen_prog: nested blocks with shadowing, loops, recursion, closures through dyn Fn, generics), "
               "instrumented by the harness so that the program prints the value of every visible u64 binding before each statement and E/X at "
               "function entry/exit; line breakpoints on every statement where a name is shadowed, on the recursion / closure helpers (prob. 1/2) and "
               "on 8 random statements; at each of up to 24 stops per program and in EVERY frame of the backtrace down to main: (1) the variable "
               "DIEs `var locals` selects, (2) the DIE `var NAME` selects for every doubly-live name, up to 5 other names of the function and an "
               "absent name, (3) the names `arg all` lists - checked in Coq against the DIE tree of the function read with llvm-dwarfdump "
-              "(locals_case / lookup_case / params_case); opt-level 1 programs (thorough tier) add loc_case: the location-list entry chosen at the "
+              "(locals_case / lookup_case / params_case); opt-level 1 programs (one in the quick tier, three in the thorough tier) add loc_case: the location-list entry chosen at the "
               "pc vs .debug_loc decoded by the harness and cross-checked with llvm-dwarfdump. In the leg: names listed vs the harness's own static "
               "scope model of the source (multiset, shadowed bindings included), value of `var NAME` / `arg NAME` / the `var locals` entry vs the "
               "value printed by that activation (innermost binding for a shadowed name). Non-trivial: locals with >= 2 names or a doubly-live name, "
@@ -38,7 +41,7 @@ def run(tier, seed):
     if tier == "thorough" and ok:
         ctx.coqchk()
     if ctx.harness_build():
-        progs, stops, opt1 = (4, 20, 0) if tier == "quick" else (60, 40, 3)
+        progs, stops, opt1 = (4, 20, 1) if tier == "quick" else (60, 40, 3)
         s = run_classified_leg(ctx, "c19-e2e", [seed, progs, ctx.cases_dir, ctx.scratch, stops, opt1],
                                "variables / parameters selected at a stop are not those of the function's DIE tree at that pc", classify)
         if s is not None:
